@@ -2679,10 +2679,10 @@ class sptensor:
             # Find where their nonzeros intersect
             # TODO consider if intersect rows should return 3 args so we don't have to
             #  call it twice
-            nzsubsIdx = tt_intersect_rows(self.subs, other.subs)
-            nzsubs = self.subs[nzsubsIdx]
-            iother = tt_intersect_rows(other.subs, self.subs)
-            equal_subs = self.vals[nzsubsIdx] == other.vals[iother]
+            # Pair each stored subscript of self with the same subscript of other
+            nzvalid, nzloc = tt_ismember_rows(self.subs, other.subs)
+            nzsubs = self.subs[nzvalid]
+            equal_subs = self.vals[nzvalid] == other.vals[nzloc[nzvalid]]
             znzsubs = np.empty(shape=(0, other.ndims), dtype=int)
             if equal_subs.size > 0:
                 znzsubs = nzsubs[(equal_subs).transpose()[0], :]
